@@ -1,5 +1,6 @@
 import Monorail.Driver.C10
 import Monorail.Driver.C01
+import Monorail.Driver.C03
 open Lean Monorail.Driver
 
 def dispatch (j : Json) : Except String Json := do
@@ -7,6 +8,8 @@ def dispatch (j : Json) : Except String Json := do
   match op with
   | "c10" => handleC10 j
   | "c01" => handleC01 j
+  | "dag" => handleDag j
+  | "groups" => handleGroups j
   | "ping" => pure (Json.mkObj [("pong", true)])
   | _ => throw s!"unknown op {op}"
 
